@@ -93,6 +93,8 @@ def handle(case):
     block = [tuple(x) for x in case["block"]]
     opts = case["opts"]
     rnd = random.Random(case.get("sseed", 0))
+    if case.get("solver_mode"):
+        c01.use_standin(case["solver_mode"])
     orig, emitted, info = c01.run_pipeline(block, opts)
     params = c01.params_for(opts)
     res = {"changed": info["changed"], "viols": []}
@@ -135,6 +137,19 @@ def run():
     opts = [["-greedy"], ["-greedy", "-size"], ["-greedy", "-length"], ["-greedy", "-push0"], ["-greedy", "-size", "-push0"],
             ["-greedy", "-partition"], ["-greedy", "-size", "-storage"], ["-greedy", "-length", "-partition"]]
     cases = common.gen_cases(n, common.seed(), opts, k_states=12 if quick else 32)
+    # candidate selection among original / greedy / solver (-ub-greedy) with good and bad solver candidates
+    from monitors import c06
+    rs = random.Random(common.seed() + 808)
+    solver_sets = [(["-solver", "z3", "-ub-greedy"], "optimal"), (["-solver", "z3", "-ub-greedy"], "model:4"),
+                   (["-solver", "z3", "-ub-greedy", "-size"], "model:2"), (["-solver", "oms", "-ub-greedy", "-length"], "model:6"),
+                   (["-solver", "z3", "-size"], "model:1")]
+    n_solver = 30 if quick else 300
+    for (o, mode) in solver_sets:
+        blocks = c06.dep_blocks(rs, n_solver // 2) + [gen.gen_block(rs, "short")[0][:7] for _ in range(n_solver // 2)]
+        for b in blocks:
+            cases.append({"block": b, "opts": o, "sseed": rs.getrandbits(30), "kind": "solver:" + mode.split(":")[0],
+                          "_group": " ".join(o) + "#" + mode, "k": 12, "idx": len(cases), "solver_mode": mode, "_cpu": 120})
+    cases.sort(key=lambda c: c["_group"])
     col = common.Collector(r)
     st = common.run_pool("monitors.c08:handle", cases, col, cpu_budget=20.0)
     c = col.counts
